@@ -2968,6 +2968,12 @@ class ContractionTree:
         """
         if reset:
             self.reset_contraction_indices()
+        else:
+            # keep the current index orders as the starting point, but drop
+            # everything derived from them, which the re-sorting invalidates
+            for node in self.children:
+                for k in ("einsum_eq", "tensordot_axes", "tensordot_perm"):
+                    self.info[node].pop(k, None)
 
         if priority == "flops":
             nodes = sorted(
